@@ -218,8 +218,11 @@ RoundTrip == Stepped =>
 (* explored register triples <<rd, rs1, rs2>>; x3 holds the pointer into the window *)
 TriplesFew == {<<1, 2, 3>>, <<1, 1, 2>>, <<1, 2, 1>>, <<1, 2, 2>>, <<1, 1, 1>>, <<0, 1, 2>>, <<1, 0, 2>>, <<1, 2, 0>>,
                <<2, 3, 1>>, <<3, 3, 3>>, <<1, 3, 2>>, <<3, 3, 1>>, <<0, 3, 1>>, <<2, 3, 3>>, <<2, 0, 1>>}
+TriplesQuick == {<<1, 2, 3>>, <<1, 1, 2>>, <<1, 2, 2>>, <<0, 1, 2>>, <<1, 0, 2>>, <<2, 3, 1>>, <<3, 3, 1>>, <<2, 3, 3>>, <<1, 2, 0>>}
 TriplesAll == {<<a, b, c>> : a \in 0..(NREG - 1), b \in 0..(NREG - 1), c \in 0..(NREG - 1)}
 ValsFew == {0, 1, Pow2(XLEN - 1) - 1, Pow2(XLEN - 1), Pow2(XLEN) - 1}
+ValsQuick == {0, Pow2(XLEN - 1) - 1, Pow2(XLEN - 1), Pow2(XLEN) - 1}
+ValsQuick3 == {1, Pow2(XLEN - 1), Pow2(XLEN) - 1}
 ValsMore == ValsFew \cup {9} \cup {2, 3, 7, 8, 15, 16, Pow2(XLEN - 1) + 1, Pow2(XLEN) - 2, Pow2(XLEN) - 8, 100}
 
 -----------------------------------------------------------------------------
